@@ -14,7 +14,7 @@ import vtlib
 from checks import synccheck
 
 META = dict(
-    text='TLC exhausts a model of photon::WorkPool transcribed from thread/workerpool.cpp (WorkPool.tla: 2 worker vCPUs each with its cooperative run queue ordered as thread.cpp orders it, a dispatch ring of 2 slots taken as an atomic FIFO, a photon-thread submitter and an OS-thread submitter handing over 3 and 4 tasks through call() (semaphore / promise awaiter in the caller\'s frame) and async_call() (heap functor), task bodies that return at once, yield or sleep, thread modes -1 (inline), 0 (new photon thread per task) and >0 (per-worker thread pool of capacity 1: reuse of an idle pooled thread, creation, overflow with its extra yield and the pool reference count), the destructor started right after the last hand-over returned: one stop marker per registered worker, join, wait for deregistration, ring destroyed; optionally one worker that joined through join_current_vcpu_into_workpool) and checks RunsExactlyOnce, CallReturnsAfterFinish, AsyncDeletedOnceAfterRun, RecordCopiedBeforeReuse (the helper thread copies the dispatcher\'s stack record before the dispatcher\'s loop iteration ends, in every interleaving the run queue allows), DestructorWaits, EveryWorkerGetsOneMarker, absence of faults (use of the caller\'s frame after call() returned, promise satisfied twice, functor used after / deleted twice, ring used after destruction), NoStuck (nothing but polling possible => destructor finished) and, on the smallest configuration under weak fairness, termination. Seven deliberately broken variants must each violate the property they attack and eight situations of interest must be reachable. Recorded executions of the real WorkPool (1-3 pool vCPUs, optional externally joined vCPU, modes -1 / 0 / 4, rings of 1, 2, 3, 4 and 64 slots, 1-4 submitters that are photon threads on 3 other vCPUs or plain OS threads using PhotonContext / StdContext / AutoContext and both forms of call(), bursts of async_call() larger than the ring, bodies that return, yield, sleep up to 7 ms or spin, the pool destroyed by the submitter that finished last or by the main thread immediately afterwards) are validated by TLC against the abstract pool: each task starts once after it was handed over and ends once on a pool vCPU, call() returns after its task ended, each async functor is deleted once after its task ended and is intact when run and deleted, ~WorkPool() returns only after every handed-over task ended and was deleted, nothing runs afterwards; a crash or a hang rejects the execution.',
+    text='TLC exhausts a model of photon::WorkPool transcribed from thread/workerpool.cpp (WorkPool.tla: 2 worker vCPUs each with its cooperative run queue ordered as thread.cpp orders it, a dispatch ring of 2 slots taken as an atomic FIFO, a photon-thread submitter and an OS-thread submitter handing over 3 and 4 tasks through call() (semaphore / promise awaiter in the caller\'s frame) and async_call() (heap functor), task bodies that return at once, yield or sleep, thread modes -1 (inline), 0 (new photon thread per task) and >0 (per-worker thread pool of capacity 1: reuse of an idle pooled thread, creation, overflow with its extra yield and the pool reference count), the destructor started right after the last hand-over returned: one stop marker per registered worker, join, wait for deregistration, ring destroyed; optionally one worker that joined through join_current_vcpu_into_workpool) and checks RunsExactlyOnce, CallReturnsAfterFinish, AsyncDeletedOnceAfterRun, RecordCopiedBeforeReuse (the helper thread copies the dispatcher\'s stack record before the dispatcher\'s loop iteration ends, in every interleaving the run queue allows), DestructorWaits, EveryWorkerGetsOneMarker, absence of faults (use of the caller\'s frame after call() returned, promise satisfied twice, functor used after / deleted twice, ring used after destruction), NoStuck (nothing but polling possible => destructor finished) and, on the smallest configuration under weak fairness, termination. Seven deliberately broken variants must each violate the property they attack and eight situations of interest must be reachable. Recorded executions of the real WorkPool (1-3 pool vCPUs, optional externally joined vCPU, modes -1 / 0 / 4, rings of 1, 2, 3, 4 and 64 slots, 1-4 submitters that are photon threads on 3 other vCPUs or plain OS threads using PhotonContext / StdContext / AutoContext and both forms of call(), bursts of async_call() larger than the ring, bodies that return, yield, sleep up to 7 ms or spin, the pool destroyed by the submitter that finished last or by the main thread immediately afterwards) are validated by TLC against the abstract pool: each task starts once after it was handed over and ends once on a pool vCPU, call() returns after its task ended, each async functor is deleted once after its task ended and is intact when run and deleted, ~WorkPool() returns only after every handed-over task ended and was deleted, nothing runs afterwards; a crash or a hang rejects the execution. Photon submitters blocked in call() are interrupted (thread_interrupt) in part of the executions: call() must still not return before its task ended.',
     note='TLC results hold for the stated populations. The MPMC ring is taken as an atomic FIFO and its wake-up protocol as "timed waits re-poll" (C07); semaphore and promise awaiters as their abstract objects (C02). The model is sequentially consistent. Conformance samples schedules; on the real code the hand-off of the stack record is observed only through its consequences (a task that runs twice / never / with a corrupted functor, a crash). No sanitizer build: photon switches stacks underneath ASan. thread_migrate() into the pool is not exercised.',
     technique='TLA+ protocol model checked exhaustively by TLC (configuration sets, broken-variant and reachability witnesses recorded in TLC registers, liveness on the smallest configuration); TLC trace validation of executions recorded from the real WorkPool against the abstract pool',
     design='3/C08')
